@@ -150,7 +150,7 @@ def gen_heavy(rng, w, tail=None):
         return gen_net(rng, w)
     b = B()
     inputs = []
-    kind = rng.randrange(4)
+    kind = rng.randrange(5)
 
     def small(i, lo=1, hi=6):
         """a small runtime or compile-time value in cell i"""
@@ -194,6 +194,21 @@ def gen_heavy(rng, w, tail=None):
             b.const(10, rng.choice([1, 3, 2]))
             sc = scale(b, 10, 11, mults)
             spin_cell = sc
+    elif kind == 4:
+        # a run-time value times a constant beyond 32 bits, memory to memory, printed straight away
+        a = small(0, 1, 9)
+        if rng.random() < 0.7:
+            b.out(0)
+        m = rng.choice([3, 5, 7, 9, 11, 255, 6, 10])
+        mults = [m] * rng.randint(8, 24)
+        x = scale(b, 0, 1, mults)
+        b.out(x)
+        if rng.random() < 0.5:
+            b.clear(5)
+            b.mulmove(x, [(5, 1), (6, 1)])
+            flag(b, 5, 8)
+            b.out(6)
+        spin_cell = x
     elif kind == 2:
         # difference of two products
         mults = [rng.choice([2, 3, 5, 7, 16, 255, 256, 128, 100]) for _ in range(rng.randint(2, 9))]
